@@ -164,6 +164,8 @@ def c15_shapes(tier, rng):
         shapes.append(('concrete-keys', maps))
     # one symbolic key per position
     positions = [
+        ('from-final/3-key-trigger', [dict(frm=[CAPS, RS, 's'], to=['s'], rep=DIS, absb=[RS]), dict(frm=[A], to=[], rep=N)]),
+        ('to-middle', [dict(frm=[A], to=[LC, 's', B], rep=('Special', ['s'], d0, i0))]),
         ('from-final', [dict(frm=[LS, 's'], to=[B], rep=N)]),
         ('from-modifier', [dict(frm=['s', A], to=[B], rep=N)]),
         ('to', [dict(frm=[A], to=[LS, 's'], rep=N)]),
@@ -172,8 +174,8 @@ def c15_shapes(tier, rng):
     ]
     for nm, maps in positions:
         shapes.append(('symbolic-key/' + nm, maps))
-    if tier != 'quick':
-        for _ in range(30):
+    if True:
+        for _ in range(12 if tier == 'quick' else 60):
             maps = []
             for _m in range(rng.choice([1, 2, 3])):
                 pre = rng.sample([LS, RS, LC, CAPS, KC['TAB']], rng.choice([0, 1, 2]))
@@ -196,61 +198,47 @@ def check_c15(tier, seed):
     f_ser = prog.method('Layout', 'serialize', module='keys', trait='Serialize')
     viols = []
     samples = []
-    for nm, maps in c15_shapes(tier, rng):
-        stats['shapes'] += 1
-
-        def run(it, maps=maps):
-            for m in maps:
-                for v in m['rep'][2:]:
-                    if isinstance(v, Opaque):
-                        pass
-            # the converter never produces a mapping that lists a key twice in its from / to list
-            for m in maps:
-                for fld in ('frm', 'to'):
-                    for k in m[fld]:
-                        if isinstance(k, str):
-                            for o in m[fld]:
-                                if not isinstance(o, str):
-                                    it.keys.assert_lit(k, o, False)
-            lay = basic_layout_val(maps)
-            r = it.run(f_ser, [Ref(Cell(lay)), Adt('ValueSerializer', None, [])])
-            if r.variant != 'Ok':
-                raise Violation('C15', 'serialising the layout failed', {})
-            value = r.f[0]
-            st, res = load_value(it, value)
-            orig = layout_to_py(it, lay)
-            if st != 'ok':
-                raise Violation('C15', 'the saved layout is rejected on reload: %s' % (res if isinstance(res, str) else '<message>'),
-                                {'saved': to_python(value), 'layout': orig})
-            back = layout_to_py(it, res)
-            diff = same_layout(it, orig, back, stats)
-            if diff is not None:
-                raise Violation('C15', 'the reloaded layout differs: ' + diff, {'saved': to_python(value), 'layout': orig})
-            return to_python(value)
-        for it, (kind, res) in explore(run):
-            stats['paths'] += 1
-            stats['mir_steps'] += it.steps
-            if kind == 'ok':
-                if len(samples) < 3 and nm.startswith('concrete'):
-                    samples.append({'shape': nm, 'saved_json': res})
-                continue
-            if kind == 'viol':
-                viols.append((res.what, res.ctx, it))
-            else:
-                viols.append(('panic during save/reload: ' + res, {'layout': None}, it))
+    global _C15_SHAPES, _C15_FSER
+    _C15_SHAPES = c15_shapes(tier, rng)
+    _C15_FSER = f_ser
+    import multiprocessing as mp
+    # the symbolic-key shapes are split by key-code range so that the 484 paths of one shape spread over the cores
+    tasks = []
+    for i, (nm, maps) in enumerate(_C15_SHAPES):
+        if nm.startswith('symbolic-key'):
+            rngs = KeyTheory.domain_ranges(mapper.DOMAIN)
+            codes = sorted(mapper.DOMAIN)
+            chunk = 31
+            for j in range(0, len(codes), chunk):
+                tasks.append((i, codes[j], codes[min(j + chunk, len(codes)) - 1]))
+        else:
+            tasks.append((i, None, None))
+    pool = mp.Pool(int(os.environ.get('VERIF_JOBS', '16')))
+    seen_shapes = set()
+    try:
+        for i, npaths, steps, q, vs, smp in pool.imap_unordered(_c15_worker, tasks):
+            if i not in seen_shapes:
+                seen_shapes.add(i)
+                stats['shapes'] += 1
+            stats['paths'] += npaths
+            stats['mir_steps'] += steps
+            stats['queries'] += q
+            viols.extend(vs)
+            if len(samples) < 3:
+                samples.extend(smp[:1])
+    finally:
+        pool.terminate()
     log('[C15] %d shapes, %d paths, %d symbolic violations' % (stats['shapes'], stats['paths'], len(viols)))
     # native confirmation
     seen = {}
-    for what, ctx, it in viols:
+    for what, conc in viols:
         role = what.split(':')[0]
         if seen.get(role, 0) >= 3:
             continue
         seen[role] = seen.get(role, 0) + 1
-        lay = ctx.get('layout')
-        if lay is None:
+        if conc is None:
             oc.inconclusive.append('symbolic violation without a concrete layout: ' + what)
             continue
-        conc = _concretise_layout(it, lay)
         r = native.ask({'kind': 'save_reload', 'layout': conc})
         case = {'kind': 'save_reload', 'layout': conc, 'property': 'C15', 'what': what}
         if 'panic' in r:
@@ -290,7 +278,7 @@ def check_c15(tier, seed):
         'traces_validated_against_impl': validated,
         'functions_encoded': ['<keys::Layout/Mapping/Repeat as Serialize>::serialize', '<KeyCode as Serialize>::serialize', 'parse_layout_from_json and all parse_* callees', 'KeyCode::from_str (_parse trie)', 'convert and callees'],
         'models': ['serde Serializer data model -> Value (serdemodel.py)', 'serde_json::Map as sorted association list', 'String/str models'],
-        'bounds': 'layouts of <= 3 mappings, triggers <= 3 keys, outputs <= 3 keys, chords <= 2 keys; every key code in each of five positions (from-final, from-modifier, to, absorbing, repeat keys)',
+        'bounds': 'layouts of <= 3 mappings, triggers <= 3 keys, outputs <= 3 keys, chords <= 2 keys; every key code in each of seven positions (from-final, from-modifier, to, to-middle + repeat key, absorbing, repeat keys, final of a three-key trigger that is also the output)',
     }
     rc = oc.report()
     write_evidence('C15', tier, seed, cov, ['the model serializer\'s correspondence to serde_json\'s writer (checked on concrete layouts natively every run)',
@@ -553,11 +541,11 @@ def c13_programs(tier, rng):
     rows = ['`', '1', 'Q', 'A', 'Z']
     for row in rows:
         L = len(US_ROWS[row])
-        positions = list(range(L)) if not quick else sorted(set([0, L - 1, rng.randrange(1, L - 1)]))
+        positions = list(range(L))
         for p in positions:
             letters = base_letters[row][:L]
             letters = letters[:p] + SYMCH + letters[p + 1:]
-            cfg = rng.randrange(4) if quick else None
+            cfg = rng.randrange(1, 4) if quick else None
             variants = [
                 {'mappings': [{'from': {'row': row}, 'to': {'letters': letters}}]},
                 {'mappings': shift + [{'from': ['@shift', {'row': row.lower()}], 'to': {'letters': letters}, 'absorbing': '@shift'}]},
@@ -566,7 +554,7 @@ def c13_programs(tier, rng):
                                              'repeat': sp(['@shift', {'letters': letters[:max(1, p)].replace(SYMCH, 'z')}])}]},
             ]
             for vi, v in enumerate(variants):
-                if cfg is None or vi == cfg or (vi == 0 and p == 0):
+                if cfg is None or vi == cfg or vi == 0:
                     P.append(('row %s pos %d variant %d' % (row, p, vi), v))
     # symbolic letter inside the repeat letters
     P.append(('row repeat letters', {'mappings': [{'from': ['CAPSLOCK', {'row': 'A'}], 'to': {'letters': 'hjkl'}, 'repeat': sp({'letters': 'a' + SYMCH + ' '})}]}))
@@ -653,60 +641,22 @@ def check_c13(tier, seed):
     stats = {'paths': 0, 'programs': 0, 'mir_steps': 0, 'z3_checks': 0, 'symbolic_letters': 0}
     viols = []
     samples = []
-    for name, program in c13_programs(tier, rng):
-        stats['programs'] += 1
-        symbolic = has_sym(program)
-        if symbolic:
-            stats['symbolic_letters'] += 1
-
-        def run(it, program=program, symbolic=symbolic):
-            ch = None
-            if symbolic:
-                ch = z3.BitVec('letter', 32)
-                it.assume(z3.And(z3.UGE(ch, 0x20), z3.ULE(ch, 0x7e)))
-            value = value_of(subst_program(program, ch) if symbolic else program)
-            try:
-                st, res = load_value(it, value)
-            except Panic as e:
-                cp = program
-                if symbolic:
-                    m = it.model()
-                    cp = subst_program(program, chr(m.eval(ch, model_completion=True).as_long()))
-                raise Violation('C13', 'panic while converting: %s' % e, {'program': cp})
-            cval = None
-            if symbolic:
-                m = it.model()
-                cval = m.eval(ch, model_completion=True).as_long()
-                if it.check_sat(ch != cval):
-                    # the path does not pin the letter: judge every remaining value by splitting on the model value
-                    it.decide(ch == cval)
-                cprog = subst_program(program, chr(cval))
-            else:
-                cprog = program
-            try:
-                ref = names_to_codes(ref_expand(cprog))
-            except RefReject as e:
-                if st == 'ok':
-                    raise Violation('C13', 'the converter accepts a program the hand-written expansion rejects (%s)' % e, {'program': cprog})
-                return None
-            if st != 'ok':
-                raise Violation('C13', 'the converter rejects a valid program: %s' % (res if isinstance(res, str) else '<message>'), {'program': cprog})
-            real = layout_to_py(it, res)
-            diff = compare_blocks(real, ref)
-            if diff is not None:
-                raise Violation('C13', diff, {'program': cprog})
-            return cprog
-        for it, (kind, res) in explore(run):
-            stats['paths'] += 1
-            stats['mir_steps'] += it.steps
-            stats['z3_checks'] += it.stats['z3_checks']
-            if kind == 'ok':
-                if res is not None and len(samples) < 3 and not symbolic:
-                    samples.append({'program': res})
-            elif kind == 'viol':
-                viols.append((name, res.what, res.ctx.get('program')))
-            else:
-                viols.append((name, 'panic while converting: ' + res, None))
+    global _C13_PROGRAMS
+    _C13_PROGRAMS = c13_programs(tier, rng)
+    import multiprocessing as mp
+    pool = mp.Pool(int(os.environ.get('VERIF_JOBS', '16')))
+    try:
+        for name, symbolic, npaths, steps, z3c, vs, smp in pool.imap_unordered(_c13_worker, range(len(_C13_PROGRAMS))):
+            stats['programs'] += 1
+            stats['symbolic_letters'] += 1 if symbolic else 0
+            stats['paths'] += npaths
+            stats['mir_steps'] += steps
+            stats['z3_checks'] += z3c
+            viols.extend(vs)
+            if len(samples) < 3:
+                samples.extend(smp[:1])
+    finally:
+        pool.terminate()
     # spelling equivalences
     for a, b in c13_spellings():
         stats['programs'] += 2
@@ -796,7 +746,7 @@ def check_c13(tier, seed):
         'mir_statements_executed': stats['mir_steps'], 'solver': {'z3 checks (branch feasibility at the character table)': stats['z3_checks']},
         'traces_validated_against_impl': validated,
         'functions_encoded': ['parse_layout_from_json and parse_* callees', 'convert, convert_mapping, convert_alias, convert_single, convert_row, convert_row_to, adjust_repeats, FromSet::new, build_combinations, iterate_combinations, MultiplyIter, AliasCombination::*', 'KeyCode::from_str', 'lazy statics CHAR_ACCESS_MAP, US_KEYBOARD_LAYOUT, ROW_NAMES'],
-        'bounds': 'rows up to their full length (Q row: 12 keys as in the tool), <= 3 alias/plain modifiers, <= 3 definitions per alias, <= 3 aliases per trigger; quick tier: 3 symbolic positions per row, thorough: every position x 4 variants; '
+        'bounds': 'rows up to their full length (Q row: 12 keys as in the tool), <= 3 alias/plain modifiers, <= 3 definitions per alias, <= 3 aliases per trigger; quick tier: every position of every row x 2 of the 4 modifier/repeat variants, thorough: x 4 variants; '
                   'the emission rule for alias definitions themselves (nothing for a lone standard modifier, otherwise trigger -> extra output keys) is taken from the code, the property text does not define it',
     }
     rc = oc.report()
@@ -1129,3 +1079,118 @@ def c14_summary(it, res):
     if kind == 'viol':
         return ('viol', payload[0], program, None)
     return (kind, payload, program, None)
+
+
+_C13_PROGRAMS = []
+
+
+def _c13_worker(i):
+    name, program = _C13_PROGRAMS[i]
+    symbolic = has_sym(program)
+    viols = []
+    samples = []
+    npaths = steps = z3c = 0
+
+    def run(it):
+        ch = None
+        if symbolic:
+            ch = z3.BitVec('letter', 32)
+            it.assume(z3.And(z3.UGE(ch, 0x20), z3.ULE(ch, 0x7e)))
+        value = value_of(subst_program(program, ch) if symbolic else program)
+        try:
+            st, res = load_value(it, value)
+        except Panic as e:
+            cp = program
+            if symbolic:
+                m = it.model()
+                cp = subst_program(program, chr(m.eval(ch, model_completion=True).as_long()))
+            raise Violation('C13', 'panic while converting: %s' % e, {'program': cp})
+        if symbolic:
+            m = it.model()
+            cval = m.eval(ch, model_completion=True).as_long()
+            if it.check_sat(ch != cval):
+                it.decide(ch == cval)      # the path does not pin the letter: split on the model value
+            cprog = subst_program(program, chr(cval))
+        else:
+            cprog = program
+        try:
+            ref = names_to_codes(ref_expand(cprog))
+        except RefReject as e:
+            if st == 'ok':
+                raise Violation('C13', 'the converter accepts a program the hand-written expansion rejects (%s)' % e, {'program': cprog})
+            return None
+        if st != 'ok':
+            raise Violation('C13', 'the converter rejects a valid program: %s' % (res if isinstance(res, str) else '<message>'), {'program': cprog})
+        real = layout_to_py(it, res)
+        diff = compare_blocks(real, ref)
+        if diff is not None:
+            raise Violation('C13', diff, {'program': cprog})
+        return cprog
+    for it, (kind, res) in explore(run):
+        npaths += 1
+        steps += it.steps
+        z3c += it.stats['z3_checks']
+        if kind == 'ok':
+            if res is not None and len(samples) < 1 and not symbolic:
+                samples.append({'program': res})
+        elif kind == 'viol':
+            viols.append((name, res.what, res.ctx.get('program')))
+        else:
+            viols.append((name, 'panic while converting: ' + res, None))
+    return name, symbolic, npaths, steps, z3c, viols, samples
+
+
+_C15_SHAPES = []
+_C15_FSER = None
+
+
+def _c15_worker(task):
+    i, lo, hi = task
+    nm, maps = _C15_SHAPES[i]
+    stats = {'queries': 0}
+    viols = []
+    samples = []
+    npaths = steps = 0
+
+    def run(it):
+        # the converter never produces a mapping that lists a key twice in its from / to list
+        for m in maps:
+            for fld in ('frm', 'to'):
+                for k in m[fld]:
+                    if isinstance(k, str):
+                        for o in m[fld]:
+                            if not isinstance(o, str):
+                                it.keys.assert_lit(k, o, False)
+        if lo is not None:
+            # this work unit covers the codes lo..hi of the symbolic key: exclude the others
+            for c in mapper.DOMAIN:
+                if c < lo or c > hi:
+                    if it.keys.ask('s', c) is None:
+                        it.keys.assert_lit('s', c, False)
+        lay = basic_layout_val(maps)
+        r = it.run(_C15_FSER, [Ref(Cell(lay)), Adt('ValueSerializer', None, [])])
+        if r.variant != 'Ok':
+            raise Violation('C15', 'serialising the layout failed', {})
+        value = r.f[0]
+        st, res = load_value(it, value)
+        orig = layout_to_py(it, lay)
+        if st != 'ok':
+            raise Violation('C15', 'the saved layout is rejected on reload: %s' % (res if isinstance(res, str) else '<message>'),
+                            {'saved': to_python(value), 'layout': orig})
+        back = layout_to_py(it, res)
+        diff = same_layout(it, orig, back, stats)
+        if diff is not None:
+            raise Violation('C15', 'the reloaded layout differs: ' + diff, {'saved': to_python(value), 'layout': orig})
+        return to_python(value)
+    for it, (kind, res) in explore(run):
+        npaths += 1
+        steps += it.steps
+        if kind == 'ok':
+            if len(samples) < 1 and nm.startswith('concrete'):
+                samples.append({'shape': nm, 'saved_json': res})
+        elif kind == 'viol':
+            lay = res.ctx.get('layout') if isinstance(res.ctx, dict) else None
+            viols.append((res.what, _concretise_layout(it, lay) if lay is not None else None))
+        else:
+            viols.append(('panic during save/reload: ' + res, None))
+    return i, npaths, steps, stats['queries'], viols, samples
